@@ -69,14 +69,14 @@ type Store struct {
 	Series []SeriesData
 
 	ClipToHints bool
-	SlowName    string        // series of this metric name have slow iterators
+	SlowName    string // series of this metric name have slow iterators
 	SlowDelay   time.Duration
 	// selects on a metric name (an equality matcher on __name__): fail at once / answer slowly
 	FailSelectName  string
 	SlowSelectName  string
 	SlowSelectDelay time.Duration
-	YieldSeed   int64 // when non-zero, pseudo-random yields/sleeps in callbacks
-	InjectedAlso error // injected failures also wrap this error (context.Canceled, context.DeadlineExceeded)
+	YieldSeed       int64 // when non-zero, pseudo-random yields/sleeps in callbacks
+	InjectedAlso    error // injected failures also wrap this error (context.Canceled, context.DeadlineExceeded)
 
 	mu        sync.Mutex
 	Selects   []SelectRecord
@@ -93,7 +93,7 @@ type Store struct {
 	Cancel  context.CancelFunc // used by cancel faults
 	blockCh chan struct{}
 	// Event log (ordering stamps) for C17.
-	Log []string
+	Log     []string
 	KeepLog bool
 }
 
@@ -130,8 +130,8 @@ func (s *Store) Fired() int64 { return atomic.LoadInt64(&s.fired) }
 
 type injectedRuntimeError struct{}
 
-func (injectedRuntimeError) Error() string   { return "verif: injected runtime error" }
-func (injectedRuntimeError) RuntimeError()   {}
+func (injectedRuntimeError) Error() string { return "verif: injected runtime error" }
+func (injectedRuntimeError) RuntimeError() {}
 
 // hit registers one callback event and returns the fault kind to apply ("" = none).
 // storeEvents counts the storage callbacks of all stores of the process (the remote engines of
